@@ -19,6 +19,7 @@ import os
 import warnings
 
 import numpy as np
+from .common import quiet as _quiet
 
 from .common import fbits, hexs, unhexs
 from . import heapgen as hg
@@ -122,7 +123,7 @@ class AliWorld:
         try:
             with warnings.catch_warnings():
                 warnings.simplefilter("ignore")
-                with np.errstate(all="ignore"):
+                with _quiet():
                     ret = fn()
         except Exception as e:   # noqa: BLE001 — the model must predict the same class
             status = hg.exc_name(e)
